@@ -126,14 +126,15 @@ class SumLoop(_Auto):
             summands = {}
             carried = tsyms + [x for k in accs for x in ([a0[k].e] if not isinstance(a0[k], SC) else [a0[k].re.e, a0[k].im.e])]
             ok = True
-            for k in accs:
+            for n_acc, k in enumerate(accs):
                 inc = SR.lift(cur[k]) - a0[k] if not isinstance(a0[k], SC) else cur[k] - a0[k]
                 term = z3.simplify(SR.lift(inc).e) if not isinstance(inc, SC) else None
                 if term is None:
                     raise Undecided("complex accumulators not supported")
                 dep = _mentions(term, carried)
-                check(f"{self.name}.{k}.increment_independent_of_loop_carried_state", z3.BoolVal(not dep), kind="invariant",
-                      note=f"depends on {dep}")
+                # (named by the position of the accumulator, not by the local's name: renaming a local is not a change of the contract)
+                check(f"{self.name}.accumulator{n_acc}.increment_independent_of_loop_carried_state", z3.BoolVal(not dep), kind="invariant",
+                      note=f"accumulator {k!r} depends on {dep}")
                 ok &= not dep
                 summands[k] = term
             check(f"{self.name}.no_array_written_in_reduction", z3.BoolVal(len(c.ghost.get("writes", [])) == nw), kind="invariant")
